@@ -3,6 +3,10 @@
    id, prog).  Used for hand-written scenario programs and for debugging the machine itself. *)
 EXTENDS Machine, IOUtils
 Progs == TLCEval(ndJsonDeserialize(IOEnv.PROGS))
+(* Records compare field by field in the order in which TLC first met the field names; values
+   are [k, v] records whose kind must be compared before the payload.  The root module is read
+   first, so naming k before v here fixes the order (checked by the ASSUME in Values.tla). *)
+FieldOrder == [k |-> 0, v |-> 0]
 VARIABLES m, pid
 Init == \E i \in 1..Len(Progs) : m = InitMachine(Progs[i].prog) /\ pid = Progs[i].id
 Next == m.status = "run" /\ m.n < MaxSteps /\ m' = Step(m) /\ UNCHANGED pid
